@@ -62,7 +62,10 @@ def inline_st(features: set, wild: bool, depth: int = 2):
         leaves.append(st.builds(lambda s: {"t": "autolink", "dest": s},
                                 st.sampled_from(["https://e.org/a", "http://x.y/z?q=1&r=2", "mailto:a@b.c"])))
     if "image" in features:
-        leaves.append(st.builds(lambda a, s, t: {"t": "image", "alt": a, "src": s, "title": t}, text_run(False, 0, 2),
+        leaves.append(st.builds(lambda a, s, t: {"t": "image", "alt": a, "src": s, "title": t},
+                                # (the alt text is the description's text content in source order, markup inside it included)
+                                st.one_of(text_run(False, 0, 2), text_run(False, 0, 2),
+                                          st.sampled_from(["fun *little* fish", "a **b *c* d** e", "x [l](u) y", "pre *mid*", "*first* then rest"])),
                                 st.sampled_from(["img.png", "a/b.svg", "https://e.org/i.gif", "./fig.png", "img/../fig.png", "img//fig.png",
                                                  "img/", "../up.png", "//host/x.png"]),
                                 st.sampled_from([None, None, "A title"])))
@@ -105,7 +108,9 @@ def inline_st(features: set, wild: bool, depth: int = 2):
             opts.append(st.builds(lambda ch, d, t: {"t": "link", "ch": ch, "dest": d, "title": t}, seq,
                                   st.sampled_from(["https://e.org", "http://e.org/a?b=1&c=2", "#target", "other.md",
                                                    "other.md#sec", "nosuch", "mailto:x@y.z", "ftp://h/f", "", "/abs/p.md",
-                                                   "a b", "inv:#x", "project:#t", "path:f.txt", "x:y", "#"]),
+                                                   "a b", "inv:#x", "project:#t", "path:f.txt", "x:y", "#",
+                                                   # destinations that need percent-encoding (carried over as written)
+                                                   "#a%20b", "#%C3%BCber", "http://e.org/a%20b?q=%C3%A9", "a%20b.md", "#über"]),
                                   st.sampled_from([None, None, "Link title"])))
         if "attrs" in features:
             opts.append(st.builds(lambda ch, a: {"t": "span", "ch": ch, "attrs": a}, seq,
